@@ -203,6 +203,20 @@ LoopExitOK(e, nb) ==
         \/ \A id \in nb : (KnownPack(id) /\ Running(e.api, TaskOfStream(StreamOfPackId(id)))) =>
                \E j \in 1..(i - 1) : e.log[j].ev = "ack" /\ \E k \in 1..Len(e.log[j].ids) : e.log[j].ids[k] = id
 
+(* ---------------- C04 (end to end) ---------------- *)
+\* "CDC issues exactly one downstream drop request ... only after the drop message has been read on every shard": when the
+\* pack carrying the drop-collection message of a single-shard collection has been written downstream in a step that did
+\* not crash, and the collection's task is still Running when the step has settled, the drop request for that collection
+\* has been issued in that step (exactly one attempt) - whatever happened to OTHER tasks of the target before
+HasDropC(pk) == \E i \in 1..Len(pk.msgs) : pk.msgs[i].k = "dropc"
+DropIssuedOK(e) ==
+    (e.op = "deliver" /\ e.res = "ok" /\ ~Crashed(e.log)) =>
+        LET pk == Scripts[e.s][e.idx]  c == CollOfStream(e.s) IN
+        (/\ HasDropC(pk) /\ Cardinality(DOMAIN c.pairs) = 1
+         /\ Running(e.api, TaskOfStream(e.s))
+         /\ \E i \in 1..Len(e.log) : e.log[i].ev = "ack" /\ e.log[i].ok /\ \E k \in 1..Len(e.log[i].ids) : e.log[i].ids[k] = pk.id) =>
+           Cardinality({i \in 1..Len(e.log) : e.log[i].ev = "ddl" /\ e.log[i].kind = "dropcollection" /\ e.log[i].name = c.name}) = 1
+
 (* ---------------- step ---------------- *)
 TStep ==
     /\ l <= Len(Traces[tr].events)
@@ -227,6 +241,7 @@ TStep ==
        /\ LET ackedIds == UNION {{e.log[i].ids[j] : j \in 1..Len(e.log[i].ids)} : i \in {x \in 1..Len(e.log) : e.log[x].ev = "ack"}}
               nb == (IF e.op = "deliver" /\ e.res = "ok" THEN batch \cup {e.id} ELSE batch) IN
           /\ ((P("C14") /\ ~Crashed(e.log)) => LoopExitOK(e, nb))
+          /\ (P("C04") => DropIssuedOK(e))
           /\ batch' = IF e.op \in {"boot", "restart", "kill"} \/ Crashed(e.log) THEN {}
                        ELSE IF ackedIds # {} \/ FailedOwners(e.log) # {} THEN {} ELSE nb
           /\ lost' = IF FailedOwners(e.log) # {} /\ ~Crashed(e.log) THEN lost \cup (nb \ acked') ELSE lost
